@@ -17,12 +17,19 @@ NoRun == [op |-> "none"]
 
 DiscsQuick    == {-1, 5, 200}
 DiscsThorough == {-1, 1, 5, 200, 300}
+\* BigDisc stands for u64::MAX (TLC's integers are 32-bit): discriminants that only a 64-bit unsigned type holds
+BigDisc == 2000000000
+DiscsBig == {1, BigDisc - 1, BigDisc}
+TraitSetsOrd == { <<"PartialEq", "PartialOrd">>, <<"PartialEq", "Eq", "PartialOrd", "Ord">> }
+\* ordering next to an educed Copy (a handler may be tempted to read the discriminant off a copied value)
+TraitSetsOrdCopy == TraitSetsOrd \cup { <<"Clone", "Copy", "PartialEq", "Eq", "PartialOrd", "Ord">>, <<"Clone", "Copy", "PartialEq", "PartialOrd">> }
+CONSTANT TraitSetsC04
 CONSTANT DiscSet
 
 MCKindSet == {"enum"}
 MCTypeOptSet(k) ==
-  { [DefOpts EXCEPT !.traits = t, !.ordvia = t[Len(t)], !.repr = r] :
-      t \in { <<"PartialEq", "PartialOrd">>, <<"PartialEq", "Eq", "PartialOrd", "Ord">> }, r \in ReprSet }
+  { [DefOpts EXCEPT !.traits = t, !.ordvia = (IF "Ord" \in { t[j] : j \in DOMAIN t } THEN "Ord" ELSE "PartialOrd"), !.repr = r] :
+      t \in TraitSetsC04, r \in ReprSet }
 
 NPayload(c) == Cardinality({ v \in 1..NVariants(c) : c.variants[v].style # "unit" })
 MCVarOptSet(c) ==
@@ -33,12 +40,13 @@ MCFieldSet(c) ==
   IF NVariants(c) = 0 \/ Len(Last(c.variants).fields) >= 1 THEN {}
   ELSE { [DefField EXCEPT !.ty = t] : t \in PayloadSet }
 
-IntReprs == {"u8", "i16", "isize", "i8", "C, u8"}
+IntReprs == {"u8", "i16", "isize", "i8", "C, u8", "u64"}
 Fits(r, d) ==
   CASE r \in {"u8", "C, u8"} -> d >= 0 /\ d <= 255
     [] r = "i16" -> d >= -32768 /\ d <= 32767
     [] r = "i8" -> d >= -128 /\ d <= 127
-    [] OTHER -> TRUE
+    [] r = "u64" -> d >= 0 /\ d <= BigDisc
+    [] OTHER -> d < BigDisc - 1000
 HasExplicit(c) == \E v \in 1..NVariants(c) : c.variants[v].disc # NoDisc
 HasPayload(c) == NPayload(c) > 0
 
